@@ -25,8 +25,14 @@ def overlay_for(name):
     shutil.rmtree(d, ignore_errors=True)
     os.makedirs(d)
     ov = {}
-    if name.startswith('seeded:'):
-        patch = '/verif/seeded/' + name[7:] + '/patch.diff'
+    if name.startswith('seeded:') or name.startswith('revert:'):
+        if name.startswith('revert:'):
+            c = name[7:]
+            patch = os.path.join(d, 'revert.diff')
+            with open(patch, 'w') as f:
+                f.write(subprocess.check_output(['git', '-C', '/repo', 'diff', c, c + '^', '--', '.', ':!*_test.go'], text=True))
+        else:
+            patch = '/verif/seeded/' + name[7:] + '/patch.diff'
         files = re.findall(r'^\+\+\+ b/(\S+)', open(patch).read(), re.M)
         tmp = tempfile.mkdtemp(prefix='ovl', dir='/verif/.work')
         for f in files:
@@ -61,6 +67,9 @@ def main():
             out += [m['id'] for m in corpus.M if m['prop'] == cid]
         elif n == 'controls':
             out += [c for c in CONTROLS if M[c]['prop'] == cid]
+        elif n == 'reverts':
+            kf = json.load(open('/verif/known_findings.json'))
+            out += ['revert:' + f['commit'] for f in kf['fixed'] if f['property'] == cid]
         elif n == 'seeds':
             out += ['seeded:' + d for d in sorted(os.listdir('/verif/seeded')) if d.startswith(cid)]
         else:
